@@ -42,10 +42,109 @@ def run(repo, rep, tier):
                       "ones equal their closed forms")
     rep.rule("R08.4", "separator whitespace is captured from the text "
                       "preceding the element")
+    rep.rule("R08.5", "digit loops: divmod by the radix / table value, "
+                      "letter digits prepended (most significant first), "
+                      "roman symbols appended over the standard descending "
+                      "table")
     _identity(repo, rep)
     _skeleton(repo, rep)
     _attributes(repo, rep)
     _whitespace(repo, rep)
+    _digits(repo, rep)
+
+
+ROMAN = ((1000, 'M'), (900, 'CM'), (500, 'D'), (400, 'CD'), (100, 'C'),
+         (90, 'XC'), (50, 'L'), (40, 'XL'), (10, 'X'), (9, 'IX'), (5, 'V'),
+         (4, 'IV'), (1, 'I'))
+
+
+def _digits(repo, rep):
+    """Shape of the two digit loops (the numeric results stay value-level;
+    these are the structural facts without which no result can be right)."""
+    ri = repo.cls(TAL + "RepeatItem")
+    m = ri.methods["_letter"]
+    site = m.qualname
+    wh = L.where(m)
+    loops = [n for n in ast.walk(m.node) if isinstance(n, ast.While)]
+    ok = len(loops) == 1
+    rep.check(ok, "R08.5", site, "one digit loop", construct="letter-loop",
+              where=wh)
+    if ok:
+        lp = loops[0]
+        dm = [n for n in ast.walk(lp) if isinstance(n, ast.Assign)
+              and isinstance(n.value, ast.Call)
+              and src(n.value.func) == "divmod"]
+        good = len(dm) == 1 and [src(a) for a in dm[0].value.args] == [
+            "index", "radix"] and src(dm[0].targets[0]).replace(" ", "") in (
+                "(index,off)", "index,off")
+        rep.check(good, "R08.5", site, "each step splits the position into "
+                  "quotient and digit by the radix (index, off = "
+                  "divmod(index, radix))", construct="letter-divmod",
+                  where=wh)
+        acc = [n for n in ast.walk(lp) if isinstance(n, (ast.Assign,
+                                                         ast.AugAssign))
+               and src(n.targets[0] if isinstance(n, ast.Assign)
+                       else n.target) == "s"]
+        good = len(acc) == 1 and isinstance(acc[0], ast.Assign) and \
+            isinstance(acc[0].value, ast.BinOp) and \
+            isinstance(acc[0].value.op, ast.Add) and \
+            src(acc[0].value.right) == "s" and \
+            src(acc[0].value.left).replace(" ", "") == "chr(base+off)"
+        rep.check(good, "R08.5", site, "divmod yields the least significant "
+                  "digit first, so each new digit chr(base + off) is "
+                  "*prepended* to the result", construct="letter-prepend",
+                  where=wh, detail=src(acc[0]) if acc else "")
+        ends = [n for n in ast.walk(lp) if isinstance(n, ast.If)
+                and src(n.test) == "not index" and
+                isinstance(n.body[0], ast.Return)
+                and src(n.body[0].value) == "s"]
+        rep.check(len(ends) == 1, "R08.5", site, "the loop ends when the "
+                  "quotient is exhausted and returns the digits",
+                  construct="letter-exit", where=wh)
+    d = m.node.args.defaults
+    names = [a.arg for a in m.node.args.args]
+    dv = dict(zip(names[len(names) - len(d):], [src(x) for x in d]))
+    rep.check(dv.get("base") == "ord('a')" and dv.get("radix") == "26",
+              "R08.5", site, "letters count in base 26 from 'a'",
+              construct="letter-base", where=wh, detail=str(dv))
+    neg = [n for n in ast.walk(m.node) if isinstance(n, ast.If)
+           and src(n.test) == "index < 0"
+           and isinstance(n.body[0], ast.Raise)]
+    rep.check(len(neg) == 1, "R08.5", site, "no position before the first "
+              "item has a letter", construct="letter-negative", where=wh)
+    rep.check(src(ri.attrs.get("letter")) == "descriptorstr(_letter)"
+              if ri.attrs.get("letter") is not None else False, "R08.5",
+              ri.qualname, "repeat.letter is the lower-case digit string",
+              construct="letter-attr")
+    r = ri.methods["Roman"]
+    site = r.qualname
+    wh = L.where(r)
+    d = r.node.args.defaults
+    table = None
+    if d:
+        try:
+            table = repo.fold(d[-1], r.module)
+        except Exception:
+            table = None
+    rep.check(table == ROMAN, "R08.5", site, "the roman table is the "
+              "standard subtractive table in descending order",
+              construct="roman-table", where=wh, detail=str(table)[:120])
+    loops = [n for n in ast.walk(r.node) if isinstance(n, ast.For)]
+    ok = len(loops) == 1 and src(loops[0].iter) == "rnvalues"
+    rep.check(ok, "R08.5", site, "one pass over the table",
+              construct="roman-loop", where=wh)
+    if ok:
+        body = [src(x) for x in loops[0].body]
+        tgt = src(loops[0].target).replace(" ", "")
+        good = tgt in ("(v,r)", "v,r") and len(body) == 2 and \
+            body[0].replace(" ", "") in ("(rct,n)=divmod(n,v)",
+                                         "rct,n=divmod(n,v)") and \
+            body[1].replace(" ", "") in ("s=s+r*rct", "s+=r*rct",
+                                         "s=s+rct*r", "s+=rct*r")
+        rep.check(good, "R08.5", site, "each table value is taken as often "
+                  "as it fits (divmod) and its symbol is *appended* that "
+                  "many times", construct="roman-step", where=wh,
+                  detail=str(body))
 
 
 def _identity(repo, rep):
@@ -213,8 +312,9 @@ def _attributes(repo, rep):
     rep.check("self._letter(base=ord('A'))" in src(m.node.body[-1]), "R08.3",
               m.qualname, "Letter = letter with base 'A'",
               construct="Letter", where=L.where(m))
-    rep.note("not decided (value-level): digit loops of _letter and Roman, "
-             "boundaries 26 / 3999, the iterator's length hint")
+    rep.note("not decided (value-level): numeric results of the digit loops "
+             "beyond their shape (R08.5), boundaries 26 / 3999, the "
+             "iterator's length hint")
 
 
 def _sub(a, b):
